@@ -38,3 +38,39 @@ def ps1_hoist_peek_guard(u, key, text):
            % (toks_var, x, guard, arm_a, arm_b))
     u.rules['PS1-hoist-peek-guard'] += 1
     return text[:m.start()] + new + tail[m3.end():]
+
+
+def ps2_reservation(u, key, text):
+    """PS2  { let mut tokens = tokens.with_reservation(TOK); F(tokens.as_mut())? }
+              ->  { tokens.ps_reserve(TOK); let ps_result = F(tokens); tokens.ps_release(); ps_result? }
+    The guard TokenReservation holds `&mut Tokens` and un-reserves in its Drop impl when the block ends - on the `?` path as well.  The
+    verifier has no Drop; the rewritten text makes the drop explicit (rule R9 of U-PARSE does the same for the second-generation cursor).
+    ps_reserve / ps_release are GENERATED from the real bodies of Tokens::with_reservation and Drop::drop (reservation_methods)."""
+    pat = re.compile(r'let mut tokens = tokens\.with_reservation\((.*?)\);\s*(\w+)\(tokens\.as_mut\(\)\)\?', re.S)
+    m = pat.search(text)
+    if not m:
+        return text
+    u.rules['PS2-reservation'] += 1
+    new = ('tokens.ps_reserve(%s);\n\t\t\t\tlet ps_result = %s(tokens);\n\t\t\t\ttokens.ps_release();\n\t\t\t\tps_result?' % (m.group(1), m.group(2)))
+    return text[:m.start()] + new + text[m.end():]
+
+
+def reservation_methods(with_reservation_text, drop_text):
+    """`impl Tokens { fn ps_reserve .. fn ps_release .. }` from the real texts (contracts in Verus syntax are part of the generated text)"""
+    m = re.search(r'fn with_reservation\(&mut self, token: Token\) -> TokenReservation<\'_>\s*\{(.*)\}\s*$', with_reservation_text.strip(), re.S)
+    if not m:
+        raise LostAnchor('PS2: Tokens::with_reservation is not in the expected form')
+    body = m.group(1)
+    body2 = re.sub(r'\s*TokenReservation\(self\)\s*$', '\n', body.rstrip())
+    if body2 == body.rstrip():
+        raise LostAnchor('PS2: with_reservation does not end in `TokenReservation(self)`')
+    d = re.search(r'fn drop\(&mut self\)\s*\{(.*)\}\s*\}\s*$', drop_text.strip(), re.S)
+    if not d:
+        raise LostAnchor('PS2: Drop::drop of TokenReservation not found')
+    dbody = d.group(1).replace('self.0.', 'self.')
+    return ("impl Tokens\n{\n\tpub fn ps_reserve(&mut self, token: Token)\n"
+            "\t\tensures final(self).tokens == old(self).tokens && final(self).last_location == old(self).last_location,\n"
+            "\t\t\tfinal(self).reserved_token == (if old(self).reserved_token is Some { old(self).reserved_token } else { Some(token) }),\n"
+            "\t{" + body2 + "\t}\n\tpub fn ps_release(&mut self)\n"
+            "\t\tensures final(self).tokens == old(self).tokens && final(self).last_location == old(self).last_location && final(self).reserved_token is None,\n"
+            "\t{" + dbody + "\t}\n}\n")
